@@ -197,7 +197,7 @@ macro_rules! range_harnesses {
                 // X = value(pending words) * 2^sb + window of NW words after them
                 let mut x: u128 = 0; let mut i = 0; while i < npend + NW { x = (x << WB) | buf[i] as u128; i += 1; }
                 let (l, _) = abs_l(&[], &sit, st.lower());
-                assert!(l <= x && x < l + st.range().get() as u128, "C11: sealed words followed by a suffix leave the encoder's interval");
+                assert!(l <= x && x < l + st.range().get() as u128, "C11/C02: sealed words followed by a suffix leave the encoder's interval");
                 cover!(nseal == 2, "two seal words");
                 cover!(npend == 2, "sealed while two words were held back");
             }
@@ -311,6 +311,33 @@ macro_rules! range_msg {
         }
     };
 }
+/// C08 + C18: RangeEncoder::get_compressed (Vec backend): the view equals what into_compressed
+/// would return at that moment (also while words are held back), num_words agrees, and dropping
+/// the view restores bulk, state and situation exactly; decoder() likewise.
+#[cfg_attr(kani, kani::proof)]
+#[cfg_attr(kani, kani::unwind(8))]
+pub fn guard_u8_u16() {
+    let (st, sit) = u8_u16_p8::any_enc_state(2);
+    let pre: [u8; 2] = [any(), any()];
+    let npre: usize = any(); assume(npre <= 2);
+    let mut v: Vec<u8> = Vec::with_capacity(8);
+    let mut i = 0; while i < npre { v.push(pre[i]); i += 1; }
+    let mut enc = RangeEncoder::<u8, u16, Vec<u8>>::from_raw_parts(v, st, sit);
+    let twin = enc.clone().into_compressed().unwrap();
+    let nw = enc.num_words();
+    assert!(nw == twin.len(), "C18: RangeEncoder::num_words differs from the length of what sealing returns");
+    {
+        let g = enc.get_compressed();
+        assert!(g.len() == twin.len(), "C08: range encoder view has a different length than finishing the encoder would return");
+        let mut i = 0; while i < twin.len() { assert!(g[i] == twin[i], "C08: range encoder view differs from what finishing the encoder would return"); i += 1; }
+    }
+    let (b, st1, sit1) = enc.into_raw_parts();
+    assert!(st1 == st && sit1 == sit, "C08: dropping the view changed the range encoder's state or situation");
+    assert!(b.len() == npre, "C08: dropping the view did not remove exactly the seal words");
+    let mut i = 0; while i < npre { assert!(b[i] == pre[i], "C08: dropping the view changed the words written so far"); i += 1; }
+    cover!(matches!(sit, EncoderSituation::Inverted(..)), "inspected while words are held back");
+}
+
 pub mod msg {
     use super::*;
     range_msg!(n1_u8_u16_p5, u8, u16, 5, 1);
